@@ -87,6 +87,23 @@ def place(w, case, n):
     return cwd, bd, files
 
 
+def exec_configs(case):
+    """two configurations sharing their sources, given in both orders: each font must come out the same"""
+    from vmc.props import c20
+
+    a, b = case["pair"]
+    rc1, err1, out1 = c20._build_configs([a, b])
+    rc2, err2, out2 = c20._build_configs([b, a])
+    if rc1 != rc2:
+        return [bad("C08.same-bytes", f"nanoemoji {a}.toml {b}.toml exits {rc1}, nanoemoji {b}.toml {a}.toml exits {rc2}")]
+    if rc1 != 0:
+        return [{"status": "rejected", "clause": "C08.configs", "fp": "configs:both-orders-fail"}]  # C20's known findings: shared intermediates
+    diff = [n for n in (a, b) if out1.get(n) != out2.get(n)]
+    if diff:
+        return [bad("C08.same-bytes", f"{diff} differ between `nanoemoji {a}.toml {b}.toml` and `nanoemoji {b}.toml {a}.toml`")]
+    return [ok("C08.configs", "configs:same")]
+
+
 def one_build(case):
     from vmc.drive import cli
 
@@ -282,6 +299,8 @@ def run_schedule(case):
 
 
 def execute(case):
+    if case.get("kind") == "configs":
+        return exec_configs(case)
     if case.get("kind") == "schedule":
         return run_schedule(case)
     return one_build(case)
@@ -290,6 +309,8 @@ def execute(case):
 def replay(case):
     """a single execution cannot show a difference: build the recorded case and the default
     case (resp. the first linear extension) of the same format and compare the bytes"""
+    if case.get("kind") == "configs":
+        return exec_configs(case)
     if case.get("kind") == "race":
         return [bad("C08.footprint-race", f"recorded race: {case}")]
     a = execute(case)
@@ -367,6 +388,13 @@ def run(report, tier, only=None):
         report.extra["set_orders_realised"]["source-paths"] = f"{realised}/{wanted} builds (3! orders x formats), each under a seed searched for its own path strings"
         if realised < wanted:
             report.cap_hit(f"{wanted - realised} iteration orders of the source-path set were not realised within the seed search limit")
+    # the order of *configuration files* on the command line (several fonts built in one invocation)
+    if only in (None, "configs"):
+        from vmc.props import c20
+
+        pairs = [("base", "noclip"), ("base", "picosvg"), ("noclip", "metrics")] if tier == "quick" else list(itertools.combinations(["base", "noclip", "picosvg", "metrics", "noreuse"], 2))
+        ccases = [{"kind": "configs", "pair": list(p_)} for p_ in pairs]
+        listing.run(report, ccases, execute, timeout=900, jobs=4)
     # schedules
     if only in (None, "sched"):
         sched_n = 2 if tier == "quick" else 3
@@ -435,7 +463,7 @@ def run(report, tier, only=None):
     report.extra["deviation_bound"] = k
     report.rule = (
         "E1 over {argument permutation (all %d!), hash seed (one per iteration order of the 3-element path / glyph-name / file-name sets, all orders "
-        "realised), ninja -j1/-j2/-j16, build dir (default/nested/with space), cwd (work/src//), source dir moved, relative arguments, glob in TOML} "
+        "realised), ninja -j1/-j2/-j16, build dir (default/nested/with space), cwd (work/src//), source dir moved, relative arguments, glob in TOML} + both orders of two configuration files built in one invocation "
         "with <= %d deviations x {glyf_colr_1, picosvg, cbdt}; E4: every linear extension of the ninja graph driven one edge at a time (quick: 2 sources; "
         "thorough: 3 sources), plus sleep-set representatives for the bitmap chain with strace footprints; oracle: one sha256 per format; "
         "distinct = number of distinct fonts per family (must be 1)" % (n, k)
